@@ -41,7 +41,9 @@ BASES = {
 }
 # verbatim repetitions of a definition are allowed by the language; annotating only one of the copies must stay inert
 BASES["dup"] = ['parameters(p=2.0, q=3.0)', 'parameters(p=2.0)', 'states(x=1.0, y=2.0)', 'states(y=2.0)', 'a = p*x + q', 'dx_dt = a - x', 'a = p*x + q', 'dy_dt = a*y - (q + x)', 'dx_dt = a - x']
-NAMES = {"one": ["p", "q", "x", "y", "a", "dx_dt", "dy_dt"], "two": ["p", "q", "x", "y", "a", "b", "dx_dt", "dy_dt"], "dup": ["p", "q", "x", "y", "a", "dx_dt", "dy_dt"]}
+BASES["component-keyword"] = ['parameters("A", p=2.0)', 'parameters("B", q=3.0)', 'states("A", x=1.0)', 'states("B", y=2.0)', 'component("A")', 'a = p*x',
+                              'dx_dt = a - (x + 1)', 'component("B")', 'b = a + q', 'c2 = b*2', 'dy_dt = b*y - c2']
+NAMES = {"component-keyword": ["p", "q", "x", "y", "a", "b", "c2", "dx_dt", "dy_dt"], "one": ["p", "q", "x", "y", "a", "dx_dt", "dy_dt"], "two": ["p", "q", "x", "y", "a", "b", "dx_dt", "dy_dt"], "dup": ["p", "q", "x", "y", "a", "dx_dt", "dy_dt"]}
 
 
 def is_assign(line):
